@@ -98,6 +98,8 @@ def gen(ctx):
         for cfg, ta, tb in cfgs:
             vals = [v for _, v in by[ta]] + ([v for _, v in by[tb]] if tb else [])
             mx = FIELD_MAX.get(field, 0xffffffff)
+            if field == 'd_tag' and ELF_MACH[cfg.split('/')[0]][0] == 32:
+                mx = 2**31 - 1              # Elf32_Sword
             seen = set()
             # every distinct code of the table, plus codes the table does not name (raw / error path)
             extra = [0, 1, mx, mx - 1] + [ctx.rng.randrange(mx + 1) for _ in range(ctx.scale(6, 60))]
